@@ -259,6 +259,63 @@ def fold(node: ast.AST):
     raise ValueError(f"not a constant: {ast.dump(node)[:80]}")
 
 
+def _single_assign(body: List[ast.stmt], name: str, deep: bool = False) -> Optional[ast.expr]:
+    vals: List[ast.expr] = []
+    nodes = [x for st in body for x in ast.walk(st)] if deep else body
+    for st in nodes:
+        if isinstance(st, ast.Assign):
+            for t in st.targets:
+                if isinstance(t, ast.Name) and t.id == name:
+                    vals.append(st.value)
+                elif isinstance(t, (ast.Tuple, ast.List)) and any(isinstance(e, ast.Name) and e.id == name for e in ast.walk(t)):
+                    return None
+        elif isinstance(st, ast.AnnAssign) and isinstance(st.target, ast.Name) and st.target.id == name and st.value is not None:
+            vals.append(st.value)
+        elif isinstance(st, ast.AugAssign) and isinstance(st.target, ast.Name) and st.target.id == name:
+            return None
+        elif deep and isinstance(st, (ast.For, ast.comprehension)) and any(isinstance(e, ast.Name) and e.id == name for e in ast.walk(st.target)):
+            return None
+        elif deep and isinstance(st, ast.NamedExpr) and st.target.id == name:
+            return None
+    return vals[0] if len(vals) == 1 else None
+
+
+def deref(mod: "Module", node: ast.AST, cls: Optional[ast.ClassDef] = None, fn: Optional[ast.AST] = None, depth: int = 4) -> ast.AST:
+    """Follow a name to the expression it was (once) assigned: a local of ``fn``, an attribute of ``cls``
+    (``self.X`` / ``cls.X`` / ``Class.X``) or a module-level name.  Returns the node itself when it is not
+    such a name.  Lets rules see a table or a tuple wherever the maintainer chose to write it."""
+    node = strip_cast(node)
+    for _ in range(depth):
+        nxt: Optional[ast.AST] = None
+        if isinstance(node, ast.Name):
+            if fn is not None and not isinstance(fn, ast.Lambda):
+                params = {a.arg for a in fn.args.args + fn.args.kwonlyargs + fn.args.posonlyargs}
+                if node.id in params:
+                    return node
+                nxt = _single_assign(fn.body, node.id, deep=True)
+                if nxt is None and any(isinstance(x, (ast.Name)) and x.id == node.id and isinstance(x.ctx, ast.Store) for x in ast.walk(fn)):
+                    return node  # a local that is not a single plain assignment
+            if nxt is None:
+                nxt = _single_assign(mod.tree.body, node.id)
+        elif isinstance(node, ast.Attribute) and isinstance(node.value, ast.Name):
+            owner: Optional[ast.ClassDef] = None
+            if node.value.id in ("self", "cls") and cls is not None:
+                owner = cls
+            elif mod.has_class(node.value.id):
+                owner = mod.cls(node.value.id)
+            hops = 0
+            while owner is not None and nxt is None and hops < 5:
+                nxt = _single_assign(owner.body, node.attr)
+                if nxt is None:
+                    bases = [(dotted(b) or "").split(".")[-1] for b in owner.bases]
+                    owner = next((mod.cls(b) for b in bases if b and mod.has_class(b)), None)
+                    hops += 1
+        if nxt is None:
+            return node
+        node = strip_cast(nxt)
+    return node
+
+
 BUILTIN_EXC = {
     name: obj
     for name, obj in vars(builtins).items()
